@@ -64,6 +64,13 @@ def scenarios(tier):
         p = pairwise.get(k)
         S.append(dict(pw=k, label=p["label"], layout=p["layout"], demux=p["outs"].get("demux"), keys=[], final=None, redirect=False,
                       report="full", extra=None))
+    # the same path given for two outputs: refused, or at least no read lost
+    for layout in ("single", "paired"):
+        for which in ("ts+tl", "ts+untrimmed", "ts+ts-paired"):
+            if which == "ts+ts-paired" and layout == "single":
+                continue
+            S.append(dict(kind="dup-paths", which=which, layout=layout, demux=None, keys=["m", "M"], final=None, redirect=True, report="full",
+                          extra=None))
     # the same figures with two cores (statistics merged across workers), default schedule of the virtual scheduler
     for layout in ("single", "paired"):
         for extra in (dict(poly_a=True), dict(q="10,10", nextseq=12), dict(times=2), None):
@@ -121,6 +128,9 @@ def run_shard(d):
     fwd = (r1, r2)
     for i in d["idx"]:
         sc = dict(S[i], reversed_corpus=(i % 2 == 1))
+        if sc.get("kind") == "dup-paths":
+            _dup_paths(sc, fwd, wd, res)
+            continue
         # every other scenario reads the corpus back to front (the reference judges each read on its own)
         r1, r2 = (fwd[0][::-1], fwd[1][::-1]) if sc["reversed_corpus"] else fwd
         o, outs = opts_of(sc)
@@ -146,6 +156,63 @@ def run_shard(d):
             res["samples"].append(dict(scenario=sc, expected_counts=out["stats"]["expected_counts"]))
     clih.rmtree(wd)
     return res
+
+
+def _dup_paths(sc, corp, wd, res):
+    """One path for two different outputs (it does not exist yet): cutadapt either refuses to run, or every input read must still be
+    found exactly once in the files it wrote."""
+    r1, r2 = corp
+    paired = sc["layout"] != "single"
+    d = os.path.join(wd, "dup")
+    os.makedirs(d, exist_ok=True)
+    for n in os.listdir(d):
+        os.unlink(os.path.join(d, n))
+    i1, i2 = os.path.join(d, "in.1.fq"), os.path.join(d, "in.2.fq")
+    clih.write_text(i1, clih.fastq_text(r1))
+    argv = ["-a", f"ad={routing.AD1}", "-m", "5", "-M", "10", "-o", os.path.join(d, "out.1.fq")]
+    x = os.path.join(d, "x.fq")
+    if paired:
+        clih.write_text(i2, clih.fastq_text(r2))
+        argv += ["-A", f"bd={routing.AD2}", "-p", os.path.join(d, "out.2.fq")]
+    if sc["which"] == "ts+tl":
+        argv += ["--too-short-output", x, "--too-long-output", x]
+        if paired:
+            argv += ["--too-short-paired-output", os.path.join(d, "y.fq"), "--too-long-paired-output", os.path.join(d, "z.fq")]
+    elif sc["which"] == "ts+untrimmed":
+        argv += ["--too-short-output", x, "--untrimmed-output", x]
+        if paired:
+            argv += ["--too-short-paired-output", os.path.join(d, "y.fq"), "--untrimmed-paired-output", os.path.join(d, "z.fq")]
+    else:
+        argv += ["--too-short-output", x, "--too-short-paired-output", x]
+    r = clih.run_cli(argv + [i1] + ([i2] if paired else []))
+    res["runs"] += 1
+    res["evals"] += len(r1)
+    res["nontrivial"] += len(r1)
+    shown = [a if not a.startswith("/") else os.path.basename(a) for a in argv]
+    if r.exit != 0:
+        if not r.errors() and r.exc is None:
+            res["viol"].append((f"{'pe' if paired else 'se'}:dup-paths", f"exit status {r.exit} without an error message", dict(argv=shown)))
+        return
+    # it ran: where are the reads?
+    seen = {}
+    for n in sorted(os.listdir(d)):
+        if n.startswith("in."):
+            continue
+        try:
+            recs = clih.read_records(os.path.join(d, n))[1]
+        except Exception as e:  # noqa
+            res["viol"].append((f"{'pe' if paired else 'se'}:dup-paths", f"one path for two outputs was accepted and {n} is unreadable "
+                                f"afterwards ({type(e).__name__})", dict(argv=shown)))
+            return
+        if n in ("out.2.fq", "y.fq", "z.fq"):
+            continue
+        for rec in recs:
+            seen[rec[0].split()[0]] = seen.get(rec[0].split()[0], 0) + 1
+    j_lost = [x_[0].split()[0] for x_ in r1 if seen.get(x_[0].split()[0], 0) == 0]
+    # reads that the filters discard without a redirect file are allowed to be absent: only -m/-M apply here, both redirected
+    if j_lost or any(v > (2 if sc["which"] == "ts+ts-paired" else 1) for v in seen.values()):
+        res["viol"].append((f"{'pe' if paired else 'se'}:dup-paths", f"one path was accepted for two outputs and {len(j_lost)} of {len(r1)} input "
+                            "reads are in no output file afterwards (the report still adds up)", dict(argv=shown, example_lost=j_lost[:3])))
 
 
 def _num(s):
@@ -300,6 +367,9 @@ def replay(path):
     with open(path) as f:
         v = json.load(f)
     print(json.dumps(v, indent=1)[:3000])
+    if "scenario" not in v["case"]:
+        import sys
+        return common.replay_by_rerun(sys.modules[__name__], PROP, path)
     sc = v["case"]["scenario"]
     o, outs = opts_of(sc)
     r1, r2 = _corpora()
